@@ -45,9 +45,10 @@ const (
 	KAtomic
 	KClock
 	KSleep
+	KSpawn
 )
 
-var kindNames = [...]string{"start", "resume", "send", "recv", "select", "close", "lock", "unlock", "rlock", "runlock", "wg.add", "wg.wait", "once.enter", "once.leave", "yield", "envyield", "choose", "atomic", "clock", "sleep"}
+var kindNames = [...]string{"start", "resume", "send", "recv", "select", "close", "lock", "unlock", "rlock", "runlock", "wg.add", "wg.wait", "once.enter", "once.leave", "yield", "envyield", "choose", "atomic", "clock", "sleep", "go"}
 
 func (k Kind) String() string { return kindNames[k] }
 
@@ -214,7 +215,7 @@ var onceOutside = map[uintptr]bool{}
 
 func passthrough(o *op) *op {
 	switch o.k {
-	case KLock, KUnlock, KRLock, KRUnlock, KWGAdd, KAtomic, KYield, KEnvYield, KOnceLeave, KClock, KSleep:
+	case KLock, KUnlock, KRLock, KRUnlock, KWGAdd, KAtomic, KYield, KEnvYield, KOnceLeave, KClock, KSleep, KSpawn:
 		return o
 	case KOnceEnter:
 		if !onceOutside[o.obj] {
@@ -257,6 +258,11 @@ func (s *Sched) spawn(f func(), sys bool) {
 	if s.aborting {
 		runtime.Goexit()
 	}
+	if SpawnPoints {
+		// optional: the go statement itself is a scheduling point (a thread
+		// can be preempted between a sync operation and the next spawn)
+		s.do(&op{k: KSpawn})
+	}
 	p := s.cur
 	p.nkids++
 	s.spawned++
@@ -270,6 +276,9 @@ func (s *Sched) spawn(f func(), sys bool) {
 	s.live.Add(1)
 	go s.body(t, f)
 }
+
+// SpawnPoints makes every spawn a scheduling point of the spawning thread.
+var SpawnPoints bool
 
 // Go starts a managed system thread (used by instrumented code for `go`).
 func Go(f func()) { S.spawn(f, true) }
@@ -524,7 +533,7 @@ func (s *Sched) transOf(t *Thread, r []trans) []trans {
 	}
 	one := trans{t: t, arm: -1}
 	switch o.k {
-	case KStart, KResume, KYield, KEnvYield, KClose, KUnlock, KRUnlock, KWGAdd, KOnceLeave, KAtomic, KClock, KSleep:
+	case KStart, KResume, KYield, KEnvYield, KClose, KUnlock, KRUnlock, KWGAdd, KOnceLeave, KAtomic, KClock, KSleep, KSpawn:
 		return append(r, one)
 	case KChoose:
 		for i := 0; i < o.n; i++ {
@@ -607,6 +616,8 @@ func (s *Sched) apply(tr trans) {
 		// local: no hash change needed (spawn already recorded)
 	case KYield, KEnvYield:
 		note(hstr(o.tag))
+	case KSpawn:
+		note(0x5a)
 	case KChoose:
 		o.ridx = tr.choice
 		note(uint64(tr.choice), uint64(o.n))
